@@ -9,7 +9,8 @@ package pubsub
 // messagePubKey returns a key only if the author ID parsed, and either the key was extracted
 // from the ID itself (no attached key) or the attached key unmarshalled and MATCHES the ID.
 //@ func messagePubKey
-//@   property C03
+//@   property C03 C12
+//@   safe
 //@   requires m: m != nil
 //@   modifies nothing
 //@   ensures id-parsed: result1 == nil ==> calls(peer.IDFromBytes) == old(calls(peer.IDFromBytes)) + 1 &&
